@@ -1,7 +1,9 @@
 mod gen;
+mod net;
 mod oracle;
 mod rng;
 mod seq;
+mod stream;
 mod sut;
 mod wire;
 
@@ -32,6 +34,15 @@ fn main() {
             let mut r = seq::Runner::new();
             r.generate(&profile, seed, count);
             r.write(&out, "seq", &profile, seed);
+        }
+        "codec" | "conn" => {
+            let mut r = seq::Runner::new();
+            let st = stream::run(&mut r, &cmd, &profile, seed, count, get("tier", "quick") == "thorough");
+            let kinds: Vec<String> = st.kinds.iter().map(|(k, v)| format!("\"{}\":{}", k, v)).collect();
+            let samples: Vec<String> = st.samples.iter().map(|s| format!("\"{}\"", s.replace('\\', "/").replace('"', "'"))).collect();
+            r.extra = format!(",\"streams\":{},\"cases\":{},\"distinct_streams\":{},\"frame_kinds\":{{{}}},\"stream_samples\":[{}]", st.streams, st.cases, st.distinct.len(), kinds.join(","), samples.join(","));
+            r.nontrivial = st.distinct.len() as u64;
+            r.write(&out, &cmd, &profile, seed);
         }
         "replay" => {
             // re-run literal op lines (a replay file's program, or a corpus entry) on the real code
